@@ -39,6 +39,12 @@ func (wp wirePath) kinds() string {
 // codec enumeration fixes a valuation for them.
 var purePredicates = []string{
 	bp7 + ".PrimaryBlock.HasCRC", bp7 + ".PrimaryBlock.HasFragmentation", bp7 + ".CanonicalBlock.HasCRC",
+	bp7 + ".BundleID.Len",
+}
+
+// predicateValues lists the values a pure predicate can take (default 0/1).
+var predicateValues = map[string][]int64{
+	bp7 + ".BundleID.Len": {2, 4},
 }
 
 type wireSide int
@@ -264,7 +270,7 @@ func (tk *tokenizer) run() ([]wirePath, bool) {
 				return
 			}
 			if cc.IsInvoke() && cc.Method.Name() == "Write" && tk.side == encSide && par != nil && streamIs(cc.Value, par, st, 0) {
-				add(st, wireTok{Kind: rawToken(cc.Args[0], st)})
+				add(st, wireTok{Kind: rawToken(cc.Args[0], st), Field: fieldTag(cc.Args[0], st, 0), val: cc.Args[0]})
 				return
 			}
 			if name == "reflect.Value.Call" && tk.side == decSide {
@@ -272,7 +278,7 @@ func (tk *tokenizer) run() ([]wirePath, bool) {
 				return
 			}
 			if !strings.HasPrefix(name, cbor+".") && name != "pkg/bpv7.ExtensionBlockManager.WriteBlock" && name != "pkg/bpv7.ExtensionBlockManager.ReadBlock" &&
-				name != "encoding/binary.Write" && name != "encoding/binary.Read" && name != "io.ReadFull" {
+				name != "encoding/binary.Write" && name != "encoding/binary.Read" && name != "io.ReadFull" && name != "io.WriteString" {
 				return
 			}
 			if len(args) == 0 {
@@ -280,7 +286,7 @@ func (tk *tokenizer) run() ([]wirePath, bool) {
 			}
 			var stream ssa.Value
 			switch name {
-			case "encoding/binary.Write", "encoding/binary.Read", "io.ReadFull":
+			case "encoding/binary.Write", "encoding/binary.Read", "io.ReadFull", "io.WriteString":
 				stream = args[0]
 			default:
 				stream = args[len(args)-1]
@@ -357,11 +363,15 @@ func (tk *tokenizer) run() ([]wirePath, bool) {
 				case "pkg/bpv7.ExtensionBlockManager.ReadBlock":
 					add(st, wireTok{Kind: "Blk", val: x})
 				case "encoding/binary.Write":
-					add(st, wireTok{Kind: "Bin(" + binTypeName(args[2]) + ")", Field: fieldTag(args[2], st, 0)})
+					v := resolveElem(args[2], st)
+					add(st, wireTok{Kind: "Bin(" + binTypeName(v) + ")", Field: fieldTag(args[2], st, 0), val: v})
 				case "encoding/binary.Read":
-					add(st, wireTok{Kind: "Bin(" + binTypeName(args[2]) + ")", Field: fieldTag(args[2], st, 0)})
+					v := resolveElem(args[2], st)
+					add(st, wireTok{Kind: "Bin(" + binTypeName(v) + ")", Field: fieldTag(args[2], st, 0), val: v})
 				case "io.ReadFull":
-					add(st, wireTok{Kind: "Bytes", Field: fieldTag(args[1], st, 0)})
+					add(st, wireTok{Kind: "Bytes", Field: fieldTag(args[1], st, 0), val: args[1]})
+				case "io.WriteString":
+					add(st, wireTok{Kind: "Bytes", Field: fieldTag(args[1], st, 0), val: args[1]})
 				}
 			}
 		}
@@ -441,7 +451,17 @@ func (tk *tokenizer) run() ([]wirePath, bool) {
 }
 
 func binTypeName(v ssa.Value) string {
-	v = core.Strip(v)
+	for {
+		if mi, ok := v.(*ssa.MakeInterface); ok {
+			v = mi.X
+			continue
+		}
+		if ci, ok := v.(*ssa.ChangeInterface); ok {
+			v = ci.X
+			continue
+		}
+		break
+	}
 	t := v.Type()
 	if p, ok := t.(*types.Pointer); ok {
 		t = p.Elem()
@@ -538,7 +558,12 @@ func grammarOf(p *core.Program, fn *ssa.Function, side wireSide) ([]wirePath, bo
 	for mask := 0; mask < 1<<uint(len(usedPreds)); mask++ {
 		preds := map[string]int64{}
 		for i, n := range usedPreds {
-			preds[n] = int64((mask >> uint(i)) & 1)
+			bit := (mask >> uint(i)) & 1
+			if vals, ok := predicateValues[n]; ok {
+				preds[n] = vals[bit]
+			} else {
+				preds[n] = int64(bit)
+			}
 		}
 		var binds []map[ssa.Value]int64
 		if side == decSide {
@@ -677,4 +702,17 @@ func brokeOnBreakCode(taken []core.Cond, call ssa.Value) bool {
 		}
 	}
 	return false
+}
+
+// resolveElem resolves a value loaded from a literal []interface{} element
+// with a known index to the value stored there.
+func resolveElem(v ssa.Value, st *core.PathState) ssa.Value {
+	if ld, ok := v.(*ssa.UnOp); ok && ld.Op == token.MUL {
+		if ia, ok := ld.X.(*ssa.IndexAddr); ok {
+			if ev, ok := st.ArrayElem(ia); ok {
+				return ev
+			}
+		}
+	}
+	return v
 }
